@@ -48,6 +48,7 @@ RULE = ("Hypothesis-generated origin dataset + program of 1..5 file-producing st
         "through a non-monotonic or repeating map or through >=2 basin hops; "
         "distinct = sha1 of the canonical JSON spec")
 BUDGET = {"quick": 320, "thorough": 6000}
+MAX_ROUNDS = 3   # re-runs after a violation (each finds one more signature)
 ESSENTIAL = ["ref:mapped", "ref:same", "ref:internal", "ref:own-copy",
              "ref:restricted", "map:repeating", "map:non-monotonic",
              "export:file", "export:child", "export:unfiltered",
@@ -704,6 +705,8 @@ class Run:
                 for f in bl:
                     if f not in mf.own:
                         mf.taint.setdefault(f, T_CHILD)
+        if child_taint:
+            mf.taint["*"] = T_CHILD   # e.g. the file length itself
         mf.basins.append(MB("file", src, None if identity else sel, None,
                             [str(src.path), src.path.name]))
         mf.born = "export"
